@@ -170,6 +170,10 @@ impl Visitor for RunScn<'_> {
 			res.faults.values().sum::<u64>(),
 			res.wall.as_secs_f64()
 		);
+		for e in &res.harness_errors {
+			eprintln!("harness error: {e}");
+			self.out.harness_error = true;
+		}
 		let nv = report_violations(s, &cfg, &res);
 		self.out.violations += nv;
 		// determinism self-check: same seed, other worker count, fresh threads -> identical digests
@@ -350,6 +354,9 @@ impl Visitor for RangeRun {
 			budget: None,
 		};
 		let res = run_batch(s, &cfg);
+		if !res.harness_errors.is_empty() {
+			return 2;
+		}
 		i32::from(!res.violations.is_empty())
 	}
 }
